@@ -122,8 +122,13 @@ Definition resolve2 (c : pcfg) (top : bool) (s : ps) (p : nat) (o : outcome) : p
       if (match o with Fail _ => pc_break_guard c && is_broken (pstate pr) | Val _ => false end)
       then (s, [ERefused p top])
       else if negb (plive pr)
-      then (setp s p {| pstate := pstate pr; ptarget := Some o; plive := false; ppending := []; pwatch := [] |},
-            [ECrash p top])
+      then (* the lists are gone: `self._target = ..` is executed, then AttributeError.  (A link firing on a promise
+              that is already NEAR/BROKEN is recorded as a crash that leaves it alone; the harness checks on every
+              run that _resolve2 is never entered in those states.) *)
+        if pending_state (pstate pr)
+        then (setp s p {| pstate := pstate pr; ptarget := Some o; plive := false; ppending := []; pwatch := [] |},
+              [ECrash p top])
+        else (s, [ECrash p top])
       else
         let st' := match o with
                    | Val _ => if pc_sets_near c then SNear else pstate pr
@@ -254,6 +259,7 @@ Definition pstep (c : pcfg) (s : ps) (o : pop) : ps * list pev :=
   | PSend p m b => send_op c s p m b true
   | PSendOnly p m b => send_op c s p m b false
   | PWhen p w => when_op c s p w
+  | PResolve p (RProm q) => if Nat.ltb q (next s) then resolve_call c true s p (RProm q) else (s, [])
   | PResolve p x => resolve_call c true s p x
   | PTurn => pturn c s
   end.
